@@ -32,6 +32,82 @@ def run(tier, seed, which="C12"):
         groups.append(dict(gid="dup%d" % i, rel="duprows", prop="C12",
                            members=[dict(names=gen.names(rng, n), seqs=seqs, type=ty, threads=rng.choice([1, 4]), dump_in=True)],
                            key=json.dumps([seqs, ty]), nontrivial=len(set(seqs)) < len(seqs) and len(set(seqs)) > 1))
+    # long duplicated sequences with a partner at a large, exactly known distance: d over three letters, the partner is d with
+    # k positions replaced by a fourth letter that does not occur in d (every such position costs exactly one edit)
+    for j, (L, k) in enumerate([(300, 256), (300, 255), (600, 512), (280, 256)] if tier == "quick" else
+                               [(300, 256), (300, 255), (300, 257), (600, 512), (280, 256), (1100, 1024), (520, 256), (800, 768)]):
+        for kind in ("dna", "protein"):
+            letters, other = ("ACG", "T") if kind == "dna" else ("LKE", "W")
+            d = gen.rand_seq(rng, letters, L)
+            pos = set(rng.sample(range(L), k))
+            x = "".join(other if i in pos else c for i, c in enumerate(d))
+            far = gen.rand_seq(rng, letters + other, L - 7)
+            for order in (["d1", "x", "d2", "far"], ["x", "d1", "far", "d2"], ["d1", "d2", "x", "far"]):
+                seqmap = dict(d1=d, d2=d, x=x, far=far)
+                names = {"d1": "dupA_1", "x": "dupA_1x" if order[0] == "d1" else "aaa", "d2": "dupA_2", "far": "zfar"}
+                groups.append(dict(gid="far%d%s%s" % (j, kind[0], "".join(o[0] + o[-1] for o in order)), rel="duprows", prop="C12",
+                                   members=[dict(names=[names[o] for o in order], seqs=[seqmap[o] for o in order], type=5, threads=2, dump_in=True)],
+                                   key=json.dumps([d, x, order]), nontrivial=True))
+    # indel-rich partners whose guide-tree distance to the duplicated sequence sits exactly on a byte boundary (255 / 256 / 257, 512):
+    # the partner is mutated until a generator-side DP (inputs only, no expected result) reports the wanted distance
+    def sg(t, p):
+        # Myers' bit-vector algorithm on python integers (generator-side aid only): min over substrings of t of ed(., p)
+        m = len(p)
+        peq = {}
+        for i, c in enumerate(p):
+            peq[c] = peq.get(c, 0) | (1 << i)
+        mask = (1 << m) - 1
+        vp, vn, score, best = mask, 0, m, m
+        hb = 1 << (m - 1)
+        for c in t:
+            eq = peq.get(c, 0)
+            x = eq | vn
+            d0 = ((((x & vp) + vp) & mask) ^ vp) | x
+            hn = vp & d0
+            hp = vn | (~(vp | d0) & mask)
+            if hp & hb:
+                score += 1
+            if hn & hb:
+                score -= 1
+            xx = (hp << 1) & mask
+            vn = xx & d0
+            vp = ((hn << 1) & mask) | (~(xx | d0) & mask)
+            best = min(best, score)
+        return best
+
+    def at_distance(d, alpha, want):
+        x = gen.mutate(rng, d, alpha, sub=0.35, indel=0.1, maxindel=5)[:len(d) - rng.randint(0, 9)]
+        for _ in range(400):
+            cur = sg(d, x) if len(x) <= len(d) else sg(x, d)
+            if cur == want:
+                return x
+            xs = list(x)
+            if cur < want:
+                for _k in range(max(1, (want - cur) // 2)):
+                    i = rng.randrange(len(xs))
+                    xs[i] = rng.choice([c for c in alpha if c != xs[i]])
+            else:
+                for _k in range(max(1, (cur - want) // 2)):
+                    i = rng.randrange(min(len(xs), len(d)))
+                    xs[i] = d[i]
+            x = "".join(xs)
+        return None
+    RED = {}
+    for k_, grp in enumerate(["AST", "C", "DNB", "EQZ", "FY", "G", "H", "IV", "KR", "LM", "P", "W", "X"]):
+        for ch in grp:
+            RED[ch] = chr(97 + k_)
+    sg0 = sg
+    sg = lambda t, p: sg0([RED[c] for c in t], [RED[c] for c in p])   # noqa: E731  distance as the guide tree sees it
+    for j, want in enumerate([256, 256, 255, 257] if tier == "quick" else [256, 256, 256, 255, 257, 512, 512, 511, 256, 256]):
+        L = int(want * 1.6) + rng.randint(0, 40)
+        d = gen.rand_seq(rng, gen.AA, L)
+        xs = [at_distance(d, gen.AA, want) for _ in range(2)]
+        if any(x is None for x in xs):
+            continue
+        names = ["dupA_1", "far0", "dupA_2", "far1"] if j % 2 else ["dupA_1", "dupA_1b", "dupA_2", "dupA_2b"]
+        seqs = [d, xs[0], d, xs[1]]
+        groups.append(dict(gid="bnd%d_%d" % (want, j), rel="duprows", prop="C12", members=[dict(names=names, seqs=seqs, type=rng.choice([3, 4, 5]), threads=rng.choice([1, 4]), dump_in=True)],
+                           key=json.dumps(seqs), nontrivial=True))
     V.sample(dict(group="dup0", seqs=groups[0]["members"][0]["seqs"][:6]))
     rel.run_groups(V, groups, wd, per_batch=6, timeout=600)
     return V.finish(rule="inputs of 2..99 sequences with planted duplicates (multiplicity 2..10, several duplicated sequences, any positions), all types, threads 1 and 4; "
